@@ -477,6 +477,20 @@ class MultiIndex:
         yield iterator(events or FakeContainer())
 
 
+class KeySizeProbe:
+    """
+    Stands in for a write transaction: takes what the indexes would put
+    and refuses the keys the storage engine would refuse
+    """
+
+    def __init__(self, max_key_size):
+        self.max_key_size = max_key_size
+
+    def put(self, key, value):
+        if not 0 < len(key) <= self.max_key_size:
+            raise ValueError("index key of %d bytes" % len(key))
+
+
 class WriterThread(threading.Thread):
     def __init__(self, env, stat_collector):
         super().__init__()
@@ -680,6 +694,7 @@ class LMDBStorage(BaseStorage):
         await self.validate_event(event, Config)
 
         if not event.is_ephemeral:
+            self.check_storable(event)
             with self.db.begin(buffers=True) as txn:
                 if get_event_data(txn, event.id_bytes):
                     # already stored: not written and not broadcast again
@@ -687,6 +702,19 @@ class LMDBStorage(BaseStorage):
             self.writer_queue.put(("add", [event]))
         await self.post_save(event)
         return event, True
+
+    def check_storable(self, event: Event):
+        """
+        The writer thread stores the event after it has been acknowledged:
+        refuse here what the writer could not store (created_at or kind outside
+        the 4 bytes of an index key, an index key longer than the engine allows, ...)
+        """
+        probe = KeySizeProbe(self.db.max_key_size())
+        try:
+            for index in self.writer_thread.write_indexes:
+                index.write(event, probe)
+        except Exception as e:
+            raise StorageError(f"invalid: event cannot be stored ({e})")
 
     async def post_save(self, event: Event, **kwargs):
         await self.notify_all_connected(event)
